@@ -3,6 +3,7 @@
 package generator
 
 import (
+	"math"
 	"strconv"
 
 	"github.com/atombender/go-jsonschema/internal/zzvrt"
@@ -13,6 +14,7 @@ import (
 // facet (DESIGN §5.2).  All fields are (possibly symbolic) booleans.
 type zzFacets struct {
 	typ, req, num, str, arr, enum bool
+	mult                          bool // multipleOf (its own facet: C05 owns it like the bounds)
 	strBytes                      bool // str facet with lengths measured in bytes (deviation patch)
 	dontCare                      bool // the property texts make no promise here
 	nullObject                    bool // region of "null-for-nullable-object-validated-as-empty"
@@ -21,7 +23,7 @@ type zzFacets struct {
 }
 
 func zzAllTrue() zzFacets {
-	return zzFacets{typ: true, req: true, num: true, str: true, arr: true, enum: true, strBytes: true}
+	return zzFacets{typ: true, req: true, num: true, str: true, arr: true, enum: true, strBytes: true, mult: true}
 }
 
 func (a zzFacets) and(b zzFacets) zzFacets {
@@ -29,6 +31,7 @@ func (a zzFacets) and(b zzFacets) zzFacets {
 		typ: zzvrt.And(a.typ, b.typ), req: zzvrt.And(a.req, b.req), num: zzvrt.And(a.num, b.num),
 		str: zzvrt.And(a.str, b.str), arr: zzvrt.And(a.arr, b.arr), enum: zzvrt.And(a.enum, b.enum),
 		strBytes:       zzvrt.And(a.strBytes, b.strBytes),
+		mult:           zzvrt.And(a.mult, b.mult),
 		dontCare:       zzvrt.Or(a.dontCare, b.dontCare),
 		itemsUnchecked: zzvrt.Or(a.itemsUnchecked, b.itemsUnchecked),
 		nestedLimits:   zzvrt.Or(a.nestedLimits, b.nestedLimits),
@@ -43,6 +46,7 @@ func (a zzFacets) when(c bool) zzFacets {
 		typ: zzvrt.Or(nc, a.typ), req: zzvrt.Or(nc, a.req), num: zzvrt.Or(nc, a.num),
 		str: zzvrt.Or(nc, a.str), arr: zzvrt.Or(nc, a.arr), enum: zzvrt.Or(nc, a.enum),
 		strBytes:       zzvrt.Or(nc, a.strBytes),
+		mult:           zzvrt.Or(nc, a.mult),
 		dontCare:       zzvrt.And(c, a.dontCare),
 		itemsUnchecked: zzvrt.And(c, a.itemsUnchecked),
 		nestedLimits:   zzvrt.And(c, a.nestedLimits),
@@ -51,12 +55,12 @@ func (a zzFacets) when(c bool) zzFacets {
 }
 
 func (a zzFacets) all() bool {
-	return zzvrt.And(a.typ, zzvrt.And(a.req, zzvrt.And(a.num, zzvrt.And(a.str, zzvrt.And(a.arr, a.enum)))))
+	return zzvrt.And(a.mult, zzvrt.And(a.typ, zzvrt.And(a.req, zzvrt.And(a.num, zzvrt.And(a.str, zzvrt.And(a.arr, a.enum))))))
 }
 
 // allBytes: the whole verdict with string lengths measured in bytes (deviation patch).
 func (a zzFacets) allBytes() bool {
-	return zzvrt.And(a.typ, zzvrt.And(a.req, zzvrt.And(a.num, zzvrt.And(a.strBytes, zzvrt.And(a.arr, a.enum)))))
+	return zzvrt.And(a.mult, zzvrt.And(a.typ, zzvrt.And(a.req, zzvrt.And(a.num, zzvrt.And(a.strBytes, zzvrt.And(a.arr, a.enum))))))
 }
 
 // others: every facet except the named one holds.
@@ -73,6 +77,7 @@ func (a zzFacets) others(except string) bool {
 	add("str", a.str)
 	add("arr", a.arr)
 	add("enum", a.enum)
+	add("mult", a.mult)
 	return r
 }
 
@@ -109,10 +114,25 @@ func zzValue(d int, path string, s *zzSpec, n int, arrayLevel int) zzFacets {
 		isNum := zzKindIs(d, path, zzvrt.KNumber)
 		f.typ = isNum
 		f.num = zzvrt.Or(zzvrt.Not(isNum), zzInBoundsF(zzvrt.DFloat(d, path), s.min, s.max, s.exMin, s.exMax))
+		if s.multipleOf != nil {
+			m := math.Mod(zzvrt.DFloat(d, path), *s.multipleOf)
+			f.mult = zzvrt.Or(zzvrt.Not(isNum), m == 0)
+			// the emitted test is |Mod| > 1e-10: remainders inside the tolerance carry no promise
+			f.dontCare = zzvrt.And(isNum, zzvrt.And(m != 0, math.Abs(m) <= 1e-10))
+		}
 	case "integer":
 		isInt := zzvrt.And(zzKindIs(d, path, zzvrt.KNumber), zzvrt.DIsInt(d, path))
 		f.typ = isInt
 		f.num = zzvrt.Or(zzvrt.Not(isInt), zzInBoundsI(zzvrt.DInt(d, path), s.min, s.max, s.exMin, s.exMax))
+		if s.multipleOf != nil {
+			// an integer is a multiple of M iff its (exact) float64 image is
+			m := *s.multipleOf
+			if m == math.Trunc(m) && math.Abs(m) < 1<<53 {
+				f.mult = zzvrt.Or(zzvrt.Not(isInt), zzvrt.DInt(d, path)%int64(m) == 0)
+			} else {
+				f.mult = zzvrt.Or(zzvrt.Not(isInt), math.Mod(float64(zzvrt.DInt(d, path)), m) == 0)
+			}
+		}
 	case "array":
 		isArr := zzKindIs(d, path, zzvrt.KArray)
 		f.typ = isArr
@@ -199,7 +219,7 @@ func zzHasValueRule(s *zzSpec) bool {
 	}
 	switch s.kind {
 	case "number", "integer":
-		return s.min != nil || s.max != nil || s.exMin != nil || s.exMax != nil
+		return s.min != nil || s.max != nil || s.exMin != nil || s.exMax != nil || s.multipleOf != nil
 	case "string":
 		return s.format == "" && (s.minLen != 0 || s.maxLen != 0 || s.pattern != "")
 	}
